@@ -117,6 +117,7 @@ namespace fastscapelib
 
         std::condition_variable m_cv;
         std::mutex m_cv_m;
+        bool m_pause_requested = false;  ///< guarded by m_cv_m: paused workers wait until cleared
 
         void init_pause_jobs();
     };
